@@ -21,13 +21,14 @@ type Node struct {
 	Kids   []*Node
 	LenMod int // 0 none; see encLen
 	Raw    []byte
+	Wrap   bool // primitive OCTET STRING whose content is itself BER (a control value): Kids hold the inner nodes
 }
 
 func (n *Node) clone() *Node {
 	if n == nil {
 		return nil
 	}
-	c := &Node{Cls: n.Cls, Cons: n.Cons, Tag: n.Tag, Data: append([]byte{}, n.Data...), LenMod: n.LenMod, Raw: n.Raw}
+	c := &Node{Cls: n.Cls, Cons: n.Cons, Tag: n.Tag, Data: append([]byte{}, n.Data...), LenMod: n.LenMod, Raw: n.Raw, Wrap: n.Wrap}
 	for _, k := range n.Kids {
 		c.Kids = append(c.Kids, k.clone())
 	}
@@ -72,8 +73,29 @@ func parseNode(b []byte) (*Node, []byte, bool) {
 		}
 	} else {
 		n.Data = append([]byte{}, content...)
+		// a control value wrapping a BER structure (paging, Behera): mutate inside it as well
+		if n.Cls == 0 && n.Tag == 4 && len(content) >= 2 && content[0]&0x20 != 0 {
+			if inner, r2, ok := parseNode(content); ok && len(r2) == 0 {
+				n.Wrap = true
+				n.Kids = []*Node{inner}
+				n.Data = nil
+			}
+		}
 	}
 	return n, rest, true
+}
+
+// unwrap turns a wrapper back into a plain primitive holding the encoded inner nodes
+func (n *Node) unwrap() {
+	if n.Wrap {
+		var content []byte
+		for _, k := range n.Kids {
+			content = append(content, k.encode()...)
+		}
+		n.Data = content
+		n.Kids = nil
+		n.Wrap = false
+	}
 }
 
 func encLenStd(l int) []byte {
@@ -92,7 +114,7 @@ func (n *Node) encode() []byte {
 		return n.Raw
 	}
 	var content []byte
-	if n.Cons {
+	if n.Cons || n.Wrap {
 		for _, k := range n.Kids {
 			content = append(content, k.encode()...)
 		}
@@ -228,6 +250,7 @@ func mutationsAt(root *Node, p path) []mutation {
 	}
 	ms = append(ms, mutation{"flipcons" + ps, func(r *Node) bool {
 		n, _, _ := get(r)
+		n.unwrap()
 		if n.Cons {
 			n.Cons = false
 			var content []byte
@@ -245,9 +268,13 @@ func mutationsAt(root *Node, p path) []mutation {
 		return true
 	}})
 	if !target.Cons {
-		ms = append(ms, mutation{"empty" + ps, func(r *Node) bool { n, _, _ := get(r); n.Data = nil; return true }})
-		ms = append(ms, mutation{"long" + ps, func(r *Node) bool { n, _, _ := get(r); n.Data = []byte{1, 2, 3, 4, 5, 6, 7, 8, 9}; return true }})
-		ms = append(ms, mutation{"hibyte" + ps, func(r *Node) bool { n, _, _ := get(r); n.Data = []byte{0xff, 0xfe}; return true }})
+		ms = append(ms, mutation{"empty" + ps, func(r *Node) bool { n, _, _ := get(r); n.unwrap(); n.Data = nil; return true }})
+		ms = append(ms, mutation{"long" + ps, func(r *Node) bool { n, _, _ := get(r); n.unwrap(); n.Data = []byte{1, 2, 3, 4, 5, 6, 7, 8, 9}; return true }})
+		ms = append(ms, mutation{"hibyte" + ps, func(r *Node) bool { n, _, _ := get(r); n.unwrap(); n.Data = []byte{0xff, 0xfe}; return true }})
+		if target.Wrap {
+			// the wrapper itself becomes a constructed octet string (ber accepts both forms)
+			ms = append(ms, mutation{"wrapcons" + ps, func(r *Node) bool { n, _, _ := get(r); n.Wrap = false; n.Cons = true; return true }})
+		}
 	} else {
 		ms = append(ms, mutation{"nokids" + ps, func(r *Node) bool { n, _, _ := get(r); n.Kids = nil; return true }})
 		ms = append(ms, mutation{"firstkid" + ps, func(r *Node) bool {
